@@ -1586,3 +1586,124 @@ func TestVerifReplay(t *testing.T) {
 `
 	return "runtime", "timed", src, true
 }
+
+// ---------- C09 (authenticated map) ----------
+func init() { replayGens["c09"] = replayC09 }
+
+func replayC09(o *Obligation) (string, string, string, bool) {
+	if !strings.HasPrefix(o.Name, "ads.") {
+		return "", "", "", false
+	}
+	src := `package ads
+
+import (
+	"fmt"
+	"testing"
+
+	"github.com/iotaledger/hive.go/kvstore/mapdb"
+)
+
+// oracle: a plain Go map. All histories of up to 4 operations over 3 keys and 3 values (one of them empty):
+// Get/Has/Size agree with the model, Delete reports presence, equal contents reached through different histories
+// give equal roots and different contents different roots, and after Commit a re-opened instance agrees.
+type id32 [32]byte
+
+func TestVerifReplay(t *testing.T) {
+	idToB := func(i id32) ([]byte, error) { return i[:], nil }
+	bToID := func(b []byte) (id32, int, error) { var i id32; copy(i[:], b); return i, 32, nil }
+	kToB := func(k string) ([]byte, error) { return []byte(k), nil }
+	bToK := func(b []byte) (string, int, error) { return string(b), len(b), nil }
+	vToB := func(v string) ([]byte, error) { return append([]byte{}, v...), nil }
+	bToV := func(b []byte) (string, int, error) { return string(b), len(b), nil }
+	keys := []string{"a", "b", "ab"}
+	vals := []string{"x", "", "yy"}
+	type op struct{ kind, k, v int } // 0 set 1 delete 2 commit+reopen
+	var ops []op
+	for k := range keys {
+		for v := range vals {
+			ops = append(ops, op{0, k, v})
+		}
+		ops = append(ops, op{1, k, 0})
+	}
+	ops = append(ops, op{2, 0, 0})
+	roots := map[string]id32{}   // contents -> root
+	byRoot := map[id32]string{} // root -> contents
+	var run func(seq []op)
+	check := func(seq []op) {
+		store := mapdb.NewMapDB()
+		m := NewMap[id32](store, idToB, bToID, kToB, bToK, vToB, bToV)
+		model := map[string]string{}
+		desc := ""
+		for _, o := range seq {
+			switch o.kind {
+			case 0:
+				desc += fmt.Sprintf("Set(%q,%q) ", keys[o.k], vals[o.v])
+				if err := m.Set(keys[o.k], vals[o.v]); err != nil {
+					t.Fatalf("REPLAY-VIOLATION %s: %v", desc, err)
+				}
+				model[keys[o.k]] = vals[o.v]
+			case 1:
+				desc += fmt.Sprintf("Delete(%q) ", keys[o.k])
+				_, was := model[keys[o.k]]
+				deleted, err := m.Delete(keys[o.k])
+				if err != nil || deleted != was {
+					t.Fatalf("REPLAY-VIOLATION %s: Delete reported %v (err %v), the key was present: %v", desc, deleted, err, was)
+				}
+				delete(model, keys[o.k])
+			case 2:
+				desc += "Commit+reopen "
+				rootBefore := m.Root()
+				if err := m.Commit(); err != nil {
+					t.Fatalf("REPLAY-VIOLATION %s: %v", desc, err)
+				}
+				m = NewMap[id32](store, idToB, bToID, kToB, bToK, vToB, bToV)
+				if !m.WasRestoredFromStorage() {
+					t.Fatalf("REPLAY-VIOLATION %s: WasRestoredFromStorage is false after a Commit", desc)
+				}
+				if m.Root() != rootBefore {
+					t.Fatalf("REPLAY-VIOLATION %s: the re-opened instance has another root than the committed one", desc)
+				}
+			}
+			for _, k := range keys {
+				want, present := model[k]
+				got, exists, err := m.Get(k)
+				has, herr := m.Has(k)
+				if err != nil || herr != nil || exists != present || has != present || (present && got != want) {
+					t.Fatalf("REPLAY-VIOLATION %s: Get(%q) = (%q, %v, %v), Has = (%v, %v); the model has (%q, %v)", desc, k, got, exists, err, has, herr, want, present)
+				}
+			}
+			if m.Size() != len(model) {
+				t.Fatalf("REPLAY-VIOLATION %s: Size() = %d, the model holds %d keys", desc, m.Size(), len(model))
+			}
+		}
+		contents := fmt.Sprint(len(model))
+		for _, k := range keys {
+			if v, ok := model[k]; ok {
+				contents += fmt.Sprintf("|%s=%q", k, v)
+			}
+		}
+		root := m.Root()
+		if r, seen := roots[contents]; seen && r != root {
+			t.Fatalf("REPLAY-VIOLATION %s: contents %s reached through another history gave a different root", desc, contents)
+		}
+		if c, seen := byRoot[root]; seen && c != contents {
+			t.Fatalf("REPLAY-VIOLATION %s: contents %s have the same root as the different contents %s", desc, contents, c)
+		}
+		roots[contents], byRoot[root] = root, contents
+	}
+	run = func(seq []op) {
+		if len(seq) > 0 {
+			check(seq)
+		}
+		if len(seq) == 4 {
+			return
+		}
+		for _, o := range ops {
+			run(append(append([]op{}, seq...), o))
+		}
+	}
+	run(nil)
+}
+`
+	return "ads", ".", src, true
+}
